@@ -29,6 +29,25 @@ executemany: per parameter set for ``cursor.executemany``; for insertmanyvalues 
 the expected sequence is ``pre + VALUES-tokens(row_0..row_k) + post`` cut out of the
 per-row literal renderings.
 
+Reference rendering details (found while making the oracle sound):
+* the literal_binds reference is compiled on a *named-paramstyle twin* of each dialect,
+  because under a positional paramstyle ``_process_positional`` / ``_process_numeric``
+  rewrite pyformat-looking text inside literal *values* (``'v %(a)s'`` -> ``'v ?'``;
+  C05's business);
+* ``stmt.params(...)`` + literal_binds renders NULL in this tree, so execution-time
+  values are embedded by rebuilding the statement (``Builder(embed=True)``);
+* literal_binds does not reach the RETURNING clause of DML: those binds remain
+  ``:name`` placeholders of the twin and are resolved by name; RETURNING therefore only
+  carries plain binds.
+
+Genuine defects this check reports on the unchanged tree (specific mechanisms):
+* ``literal-execute-escaped-name-keyerror`` - literal_execute bind whose name needs
+  escaping -> KeyError in ``_process_parameters_for_postcompile``;
+* ``imv-named-bindname-prefix-replace`` - insertmanyvalues under paramstyle "named":
+  ``str.replace(":x", ":x__0")`` also rewrites the head of ``:x2``.
+An internal error (AssertionError, KeyError...) under one paramstyle while the reference
+rendering executes is reported as ``execution-failed-under-style``.
+
 Guards (what the oracle deliberately does not demand):
 * extra keys in a delivered dict are ignored (drivers ignore them);
 * RETURNING rows of executemany without sort_by_parameter_order and of UPDATE/DELETE
